@@ -198,12 +198,17 @@ class CommonRD:
             if "lt" in registration_parameters:
                 try:
                     set_lt = int(pop_single_arg(registration_parameters, "lt"))
-                except ValueError:
+                except (ValueError, TypeError):
+                    # (TypeError: the parameter was given without a value)
                     raise error.BadRequest("lt must be numeric")
 
             if "base" in registration_parameters:
                 set_base = pop_single_arg(registration_parameters, "base")
-                if set_base is not None:
+                if set_base is None:
+                    # given without a value: neither an explicit base nor a
+                    # request to fall back to the network address
+                    raise error.BadRequest("base needs a value")
+                else:
                     try:
                         # All targets of the registration's links will be
                         # resolved against this later in lookups, over and
@@ -215,9 +220,12 @@ class CommonRD:
             if set_lt is not None and self.lt != set_lt:
                 actual_change = True
                 self.lt = set_lt
-            if set_base is not None and (is_initial or self.base != set_base):
-                actual_change = True
-                self.base = set_base
+            if set_base is not None:
+                if is_initial or self.base != set_base:
+                    actual_change = True
+                    self.base = set_base
+                # (also when it spells out what was so far derived from the
+                # network address: from now on it is what the registrant said)
                 self.base_is_explicit = True
 
             if not self.base_is_explicit and (is_initial or self.base != network_base):
